@@ -260,6 +260,10 @@ func H_C14() {
 	h := newHist(cfg)
 	h.run(nil, nil)
 	A, B := h.logs[0], h.logs[1]
+	if vx.Param("EMPTYDST", 0) == 1 && vx.Choice("emptyDst", 2) == 1 {
+		A = freshObserver(h, 0) // a fresh, empty destination being filled from a live peer
+		vx.Sig("destination=empty")
+	}
 	nsc := 2
 	if cfg.R >= 3 {
 		nsc = 3
